@@ -121,6 +121,91 @@ pub fn random_doc(rng: &mut Rng, max_nodes: usize) -> Vec<u8> {
     out
 }
 
+/// Every fragment behind already-consumed bytes and followed by more input (so that every construct is
+/// met at a non-zero buffer offset and at every cut position).
+pub fn framed_inputs() -> Vec<Vec<u8>> {
+    let mut v = Vec::new();
+    for i in 0..FRAGS.len() {
+        let f = frag_bytes(i);
+        let mut a = b"x".to_vec(); a.extend_from_slice(f); v.push(a);
+        let mut b = b"<p>t".to_vec(); b.extend_from_slice(f); b.extend_from_slice(b"y</p>"); v.push(b);
+        let mut c = b"<!--c-->".to_vec(); c.extend_from_slice(f); c.extend_from_slice(b"<a>"); v.push(c);
+    }
+    v
+}
+
+/// Well-nested SVG / MathML islands: explicitly closed elements, CDATA, self-closing syntax, integration
+/// points with HTML inside, names the tag-name hash cannot represent, font / annotation-xml special cases.
+pub fn foreign_doc(rng: &mut Rng, max_nodes: usize) -> Vec<u8> {
+    fn node(rng: &mut Rng, out: &mut Vec<u8>, ns: u8, depth: usize, budget: &mut usize) {
+        // ns: 0 html, 1 svg, 2 mathml
+        if *budget == 0 { return; }
+        *budget -= 1;
+        let html_names: &[&str] = &["div", "b", "span", "x-y", "a", "verylongtagname12", "p", "i"];
+        let svg_names: &[&str] = &["g", "path", "circle", "x-unit", "text", "a", "font", "title", "desc", "foreignObject", "script", "style"];
+        let math_names: &[&str] = &["mrow", "mi", "mo", "mn", "ms", "mtext", "annotation-xml", "x-y", "mglyph", "font", "semantics"];
+        let r = rng.below(12);
+        if r < 2 { out.extend_from_slice(rng.pick(&["t", "1 ", "x&amp;y", "é"]).as_bytes()); return; }
+        if r == 2 { out.extend_from_slice(b"<!--c-->"); return; }
+        if r == 3 && ns != 0 { out.extend_from_slice(rng.pick(&["<![CDATA[x<y]]>", "<![CDATA[]]>", "<![CDATA[<b>]]]>"]).as_bytes()); return; }
+        if r == 3 && ns == 0 { out.extend_from_slice(b"<![CDATA[x]]>"); return; }
+        let (name, child_ns): (String, u8) = match ns {
+            0 => {
+                if depth < 3 && rng.chance(1, 3) { if rng.chance(1, 2) { ("svg".into(), 1) } else { ("math".into(), 2) } }
+                else { ((*rng.pick(html_names)).to_string(), 0) }
+            }
+            1 => { let n = *rng.pick(svg_names); (n.to_string(), if matches!(n, "title" | "desc" | "foreignObject") { 0 } else { 1 }) }
+            _ => { let n = *rng.pick(math_names); (n.to_string(), if matches!(n, "mi" | "mo" | "mn" | "ms" | "mtext") { 0 } else { 2 }) }
+        };
+        let shown = if rng.chance(1, 8) { name.to_ascii_uppercase() } else { name.clone() };
+        let mut attrs = String::new();
+        let mut child_ns = child_ns;
+        if name == "annotation-xml" && rng.chance(2, 3) { attrs.push_str(*rng.pick(&[" encoding=text/html", " encoding=\"application/xhtml+xml\"", " ENCODING=TEXT/HTML", " encoding=x"])); if !attrs.ends_with("=x") { child_ns = 0; } }
+        if name == "font" && rng.chance(1, 2) && ns != 0 { attrs.push_str(*rng.pick(&[" color=red", " size=1", " face=f", " id=i"])); }
+        if rng.chance(1, 4) { attrs.push_str(*rng.pick(&[" id=u", " class=c", " href='x'"])); }
+        if ns != 0 && rng.chance(1, 5) {
+            out.extend_from_slice(format!("<{shown}{attrs}/>").as_bytes());
+            return;
+        }
+        out.extend_from_slice(format!("<{shown}{attrs}>").as_bytes());
+        let raw = ns == 0 && false;
+        let _ = raw;
+        if (name == "script" || name == "style") && ns == 1 {
+            // in SVG these are ordinary elements whose content is parsed as markup
+            out.extend_from_slice(b"x");
+        } else {
+            let kids = rng.below(4);
+            for _ in 0..kids { node(rng, out, child_ns, depth + 1, budget); }
+        }
+        out.extend_from_slice(format!("</{shown}>").as_bytes());
+    }
+    let mut out = Vec::new();
+    let mut budget = 2 + rng.below(max_nodes);
+    while budget > 0 { node(rng, &mut out, 0, 0, &mut budget); }
+    out
+}
+
+/// The shared input corpus: every fragment, every fragment framed by other input, all ordered pairs over a
+/// seed-rotated pool, and seeded documents of each generator.
+pub fn corpus(rng: &mut Rng, pair_pool: usize, nrand: usize) -> Vec<Vec<u8>> {
+    let mut inputs: Vec<Vec<u8>> = (0..FRAGS.len()).map(|i| frag_bytes(i).to_vec()).collect();
+    inputs.extend(framed_inputs());
+    let mut pool: Vec<usize> = (0..FRAGS.len()).collect();
+    for i in (1..pool.len()).rev() { pool.swap(i, rng.below(i + 1)); }
+    pool.truncate(pair_pool);
+    for &a in &pool { for &b in &pool { let mut x = frag_bytes(a).to_vec(); x.extend_from_slice(frag_bytes(b)); inputs.push(x); } }
+    for i in 0..nrand {
+        inputs.push(match i % 5 {
+            0 => random_doc(rng, 14),
+            1 => random_input(rng, 3, 9),
+            2 => foreign_doc(rng, 10),
+            3 => { let mut v = random_doc(rng, 8); v.extend_from_slice("<p>é日本😀</p><a href=é>".as_bytes()); v.extend_from_slice(&random_input(rng, 1, 4)); v }
+            _ => { let mut v = foreign_doc(rng, 6); v.extend_from_slice(&random_input(rng, 1, 3)); v }
+        });
+    }
+    inputs
+}
+
 pub fn random_bytes(rng: &mut Rng, max_len: usize) -> Vec<u8> {
     const POOL: &[u8] = b"<>/!-=\"' \n\t&;[]?abcstyleSCRIPT\0\x80\xc3\xa9\xff";
     let n = rng.below(max_len + 1);
